@@ -100,11 +100,22 @@ def load_many(lit: LineIterator) -> Iterator[dict]:
     """Do not edit this docstring. It will be overwritten."""
     # SDF files with more molecules are a simple concatenation of individual SDF files,'
     # making it travial to load many frames.
-    try:
-        while True:
-            yield load_one(lit)
-    except StopIteration:
-        return
+    while True:
+        # When only empty lines are left, the end of the file is reached.
+        lines = []
+        try:
+            while not lines or lines[-1].strip() == "":
+                lines.append(next(lit))
+        except StopIteration:
+            return
+        # Put the lines back: a frame may start with an empty (title) line.
+        while lines:
+            lit.back(lines.pop())
+        try:
+            data = load_one(lit)
+        except StopIteration as exc:
+            raise LoadError("File ended in the middle of a frame.", lit) from exc
+        yield data
 
 
 @document_dump_one("SDF", ["atcoords", "atnums"], ["title", "bonds"])
